@@ -266,7 +266,7 @@ _t("mvreg", [{"cfg": "mvreg_t3.cfg", "module": "MC_MVReg.tla", "flags": ["--pers
              {"cfg": "mvreg_t2.cfg", "module": "MC_MVReg.tla", "flags": ["--persist", "--laws"], "invariants": INV_MVREG, "timeout": 3000},
              {"cfg": "mvreg_s_4writers.cfg", "module": "MC_MVReg.tla", "flags": ["--persist", "--laws"], "invariants": INV_MVREG, "timeout": 3000}])
 _t("map_or", [mapcfg("map_or_tm.cfg", 2, 2, timeout=3000)])
-_t("map_mv", [mapcfg("map_mv_tm.cfg", 1, 2, timeout=3000)])
+_t("map_mv", [mapcfg("map_mv_tm.cfg", 1, 2, timeout=3000), mapcfg("map_mv_q3k.cfg", 1, 3, timeout=3000)])   # q3k: three keys (ordered walks over both key sets)
 _t("map_map_or", [mapcfg("map_map_or_t.cfg", 1, 2, timeout=3000)])
 _t("map_map_mv", [mapcfg("map_map_mv_t.cfg", 1, 1, timeout=3000)])
 _t("simple", [simplecfg("lww3", "lww")])
